@@ -93,6 +93,28 @@ pub fn cmd_c02(tier: &str, out: &str) {
             emit(&mut ks, &s, ops, &run_reader_vec(&s, Src::Io, 0), new_from_bytes, 8);
         }
     });
+    // CAPTAIL: prefix + (a lone 0x1b run / a literal escape / zeros) + a tail of 8..12 bytes, followed by a small frame,
+    // through every fixed capacity 0..|p|+1: whatever happens at the out-of-memory boundary, no later "payload" may be
+    // reported for bytes that are not its canonical frame (e.g. the tail of the oversized transmission)
+    {
+        let segs: [&[u8]; 7] = [&[0x1b, 0x55], &[0x1b, 0x1b, 0x56], &[0x1b, 0x1b, 0x1b, 0x57], &[0x1b, 0x1b, 0x1b, 0x1b], &[0x00, 0x58], &[0x00, 0x00, 0x00, 0x00, 0x00, 0x59], &[0x1b, 0x1b, 0x1b, 0x1b, 0x1b, 0x5a]];
+        for k in 0..=12usize {
+            for seg in segs.iter() {
+                for tl in [8usize, 9, 12] {
+                    let mut p: Vec<u8> = (1..=k as u8).collect();
+                    p.extend(seg.iter());
+                    p.extend((0..tl).map(|i| 0x61 + i as u8));
+                    let mut st = frame(&p);
+                    st.extend(frame(&[0x77]));
+                    let ops: Vec<u32> = st.iter().map(|b| *b as u32).collect();
+                    for cap in 0..=(p.len() + 1).min(48) {
+                        streams += 1;
+                        emit(&mut ks, &st, &ops, &run_push_n(cap, &ops, false), 0, 40);
+                    }
+                }
+            }
+        }
+    }
     ks.finish("c02", &format!(",\"streams\":{}", streams));
 }
 
